@@ -531,7 +531,15 @@ class Interp:
     def setitem(self, o, k, v, node):
         if isinstance(o, dict):
             if is_sym(k) or isinstance(k, Obj):
-                raise Unsupported('symbolic key into concrete dict')
+                # store through a symbolic key: one path per existing key it can be equal to (a store that creates a new key is outside the subset)
+                for key in list(o):
+                    c = self.eq(k, key)
+                    if c is False:
+                        continue
+                    if c is True or self.ctx.branch(to_z3(c), 'dictstore@%d' % getattr(node, 'lineno', 0)):
+                        o[key] = v
+                        return
+                raise Unsupported('store into a concrete dict through a symbolic key that matches no existing key')
             o[k] = v
         elif isinstance(o, list):
             if not isinstance(k, int):
@@ -1562,7 +1570,14 @@ class Interp:
             raise Unsupported('read of loop-havocked local %s' % o.name)
         if isinstance(o, dict):
             if is_sym(k) or isinstance(k, Obj):
-                raise Unsupported('symbolic key into concrete dict')
+                # a concrete dict indexed by a symbolic key: one path per key that can be equal to it, KeyError otherwise
+                for key in list(o):
+                    c = self.eq(k, key)
+                    if c is False:
+                        continue
+                    if c is True or self.ctx.branch(to_z3(c), 'dictkey@%d' % getattr(node, 'lineno', 0)):
+                        return o[key]
+                self.raise_py('KeyError', node)
             if k not in o:
                 self.raise_py('KeyError', node)
             return o[k]
